@@ -195,7 +195,7 @@ def front_with_watchdog(bb, cpu_limit=FRONT_CPU_S):
             os.kill(pid, signal.SIGKILL)
             os.waitpid(pid, 0)
             os.close(r)
-            return ("timeout", round(cpu if cpu is not None else wall, 1))
+            return ("timeout", f"{cpu if cpu is not None else -1:.1f} CPU s / {wall:.1f} wall s")
     os.close(r)
     _, status = os.waitpid(pid, 0)
     if not buf:
@@ -266,7 +266,7 @@ def judge(inp):
             if dom is None:
                 info["minimality_unchecked"] = 1
             elif dom:
-                bad.append(("not-pareto-minimal", {"impacts": imp, "no accepting vector below": True}, {"dominated_by": dom[:5]}))
+                bad.append(("not-pareto-minimal", {"impacts": imp, "no accepting vector below": True}, {"dominated_by": [list(u) for u in dom[:5]]}))
         return ev, bad, info
 
     if check == "queries":
@@ -309,7 +309,7 @@ def judge(inp):
         kind, val = front_with_watchdog(bb, inp.get("cpu_limit", FRONT_CPU_S))
         ev += 1
         if kind == "timeout":
-            return ev, [("front-nontermination", f"returns within {inp.get('cpu_limit', FRONT_CPU_S)} CPU s", f"killed after {val} s")], info
+            return ev, [("front-nontermination", f"returns within {inp.get('cpu_limit', FRONT_CPU_S)} CPU s", f"killed after {val}")], info
         if kind in ("exc", "crash"):
             return ev, [("front-exception", "list of impact vectors", f"{kind}: {val}")], info
         got = [tuple(v) for v in val]
@@ -319,7 +319,7 @@ def judge(inp):
         B = inp.get("bound", T.n + 2)
         want = T.front(B)
         if len(set(got)) != len(got):
-            bad.append(("front-duplicates", want, [list(v) for v in got]))
+            bad.append(("front-duplicates", [list(v) for v in want], [list(v) for v in got]))
         notacc = [v for v in set(got) if not bool(T.accepting([list(v)])[0])]
         if notacc:
             bad.append(("front-vector-not-accepting", "every vector accepts the base", [list(v) for v in sorted(notacc)]))
